@@ -139,7 +139,11 @@ func c14Gen(c *core.Ctx) func(yield func(c14Case) bool) {
 		for n := 4; n <= 6; n++ {
 			for _, fail := range []int{0, 1<<n - 1, 0x2a & (1<<n - 1)} {
 				for _, slow := range []int{-1, n - 1} {
-					if !yield(c14Case{N: n, Fail: fail, Steps: 0, Slow: slow, Bound: 1}) {
+					b := 1
+					if c.Thorough() && n == 4 {
+						b = 2
+					}
+					if !yield(c14Case{N: n, Fail: fail, Steps: 0, Slow: slow, Bound: b}) {
 						return
 					}
 				}
